@@ -237,6 +237,58 @@ func checkC07(c *Ctx) {
 		}
 	}
 
+	// a trigger that was taken off the channel is honoured: from every receive on the refresh channel the next thing
+	// that happens - before the goroutine returns or waits again - is a refresh round. A receive that only empties
+	// the channel ("the table is fresh anyway") swallows the request of a redirection that arrived during the round.
+	if refreshCh != nil && refresh != nil && doRefresh != nil {
+		runsRound := func(x ssa.Instruction) bool { return isCallToFn(x, refresh, doRefresh) }
+		waitsAgain := func(x ssa.Instruction) bool {
+			switch y := x.(type) {
+			case *ssa.Select:
+				return y.Blocking
+			case *ssa.UnOp:
+				return y.Op == token.ARROW
+			case *ssa.Return:
+				return true
+			}
+			return isCallTo(x, "time.Sleep")
+		}
+		nRecv := 0
+		for _, op := range p.chanOpsOnField(refreshCh) {
+			if op.Kind != opRecv {
+				continue
+			}
+			nRecv++
+			site := fmt.Sprintf("receive#%d on the refresh channel in %s is followed by a round", nRecv, fnKey(op.Fn))
+			var from ipos
+			if op.InSelect != nil {
+				var blk *ssa.BasicBlock
+				for k, st := range op.InSelect.States {
+					if f, _ := chanFieldOf(st.Chan); f == refreshCh && st.Dir == types.RecvOnly {
+						blk = selectCaseBlock(op.InSelect, k)
+					}
+				}
+				switch {
+				case blk != nil:
+					from = ipos{blk, -1}
+				case !op.InSelect.Blocking:
+					// arms without a body: execution continues behind the select whichever arm fired
+					from = posOf(op.InSelect)
+				default:
+					c.Undecided("R3", site, op.In.Pos(), "the select arm of the receive was not found")
+					continue
+				}
+			} else {
+				from = posOf(op.In)
+			}
+			path := findPath(from, pathQuery{target: waitsAgain, avoid: runsRound})
+			c.Check(path == nil, "R3", site, op.In.Pos(), "every path from the receive runs a refresh round before the goroutine waits again or returns", "a refresh request is taken off the channel and dropped ("+p.pathString(path)+"): a redirection that arrived while a round was in flight loses its refresh when that round's answer predates the change - the table stays stale until another redirection happens to land outside a round, or until the periodic refresh")
+		}
+		if nRecv == 0 {
+			c.Fail("R3", "the refresh channel has a receiver", refresh.Pos(), "nothing receives from the refresh channel: triggers are never served")
+		}
+	}
+
 	// ---------------- R4
 	for _, name := range []string{"OnHostAdd", "OnHostRemove", "OnHostReplace"} {
 		fn := p.Func(redisPkg, "(*upstream)."+name)
@@ -304,7 +356,7 @@ func checkC07(c *Ctx) {
 	c.Expect("R4", 5)
 	// the redirect and cluster-down callbacks (shared with C04.R3): every recognised redirection and every cluster-down
 	// path reaches the trigger, whatever happens to the resend
-	c.withAlias(map[string]string{"R3": "R4", "R1": "", "R2": "", "R4": "", "R5": "", "R6": "", "R7": "", "R8": "", "R9": ""}, func() { checkC04(c) })
+	c.withAlias(map[string]string{"R3": "R4", "R1": "", "R2": "", "R4": "", "R5": "", "R6": "", "R7": "", "R8": "", "R9": "", "R10": "", "R11": ""}, func() { checkC04(c) })
 
 	// ---------------- R5
 	loop := p.Func(redisPkg, "(*upstream).loopRefreshSlots")
@@ -507,6 +559,81 @@ func checkParsedViewApplied(c *Ctx, rule string) {
 			}
 			return !isNilConst(last)
 		}})
+		// ... and no path returns without having gone through the table update: an acceptance test that silently keeps
+		// the old table (a "not newer than what I have" filter, say) leaves moved slots redirected for ever just the same
+		slotsF := p.Field(redisPkg, "upstream", "slots")
+		writesTable := func(g *ssa.Function) *ssa.BasicBlock {
+			var blk *ssa.BasicBlock
+			eachInstr(g, func(b *ssa.BasicBlock, _ int, x ssa.Instruction) {
+				if st, isSt := x.(*ssa.Store); isSt {
+					if ia, isIA := st.Addr.(*ssa.IndexAddr); isIA {
+						if f, _ := fieldAddr(ia.X); f != nil && f == slotsF {
+							blk = b
+						} else if f, _ := loadedField(ia.X); f != nil && f == slotsF {
+							blk = b
+						}
+					}
+				}
+			})
+			return blk
+		}
+		if slotsF == nil {
+			c.Unresolved(rule, "upstream.slots")
+		} else {
+			reaches := func(from, to *ssa.BasicBlock) bool {
+				seen := map[*ssa.BasicBlock]bool{}
+				work := []*ssa.BasicBlock{from}
+				for len(work) > 0 {
+					b := work[0]
+					work = work[1:]
+					for _, s := range b.Succs {
+						if s == to {
+							return true
+						}
+						if !seen[s] {
+							seen[s] = true
+							work = append(work, s)
+						}
+					}
+				}
+				return false
+			}
+			var apply func(x ssa.Instruction) bool
+			if wb := writesTable(fn); wb != nil {
+				// the outermost loop around the store that starts after the parse
+				var head *ssa.BasicBlock
+				for _, h := range loopHeaders(fn) {
+					if h.Dominates(wb) && reaches(wb, h) && (okBlock == h || okBlock.Dominates(h)) {
+						if head == nil || h.Dominates(head) {
+							head = h
+						}
+					}
+				}
+				if head == nil {
+					head = wb
+				}
+				apply = func(x ssa.Instruction) bool { return x.Block() == head }
+			} else {
+				apply = func(x ssa.Instruction) bool {
+					cc := callOf(x)
+					if cc == nil {
+						return false
+					}
+					g := calleeFn(cc)
+					if g == nil || !isModFn(g) || g.Blocks == nil {
+						return false
+					}
+					for _, h := range append([]*ssa.Function{g}, staticCalleesDeep(g, 1)...) {
+						if h.Blocks != nil && isModFn(h) && writesTable(h) != nil {
+							return true
+						}
+					}
+					return false
+				}
+			}
+			skip := findPath(ipos{okBlock, -1}, pathQuery{target: isReturn, avoid: apply})
+			c.Check(skip == nil, rule, site+": every parsed view reaches the table", call.Pos(), "every path from a successful parse goes through the table update", "a successfully parsed cluster view can be dropped without touching the routing table ("+p.pathString(skip)+"): a view that fails the extra test is pulled and discarded every round, so slots that moved stay redirected although their new owner is known")
+		}
 		c.Check(path == nil, rule, site, call.Pos(), "after a successful parse no path returns an error", "a successfully parsed cluster view can still be rejected ("+p.pathString(path)+"): while the condition holds every refresh round fails, so the routing table stays as it was - slots that moved are redirected for ever although their new owner is known")
 	}
 	if n == 0 {
